@@ -226,7 +226,7 @@ def assumptions_ok(assm):
 def build_driver():
     with Lock("build"):
         coq_makefile()
-        deps = ["Model/Typed.vo", "Model/WellTyped.vo", "Model/Procs.vo", "Spec/Tables.vo", "Spec/ProcTables.vo", "Model/Arb.vo", "Model/ArbTy.vo", "Model/Within.vo"]
+        deps = ["Model/Typed.vo", "Model/WellTyped.vo", "Model/Procs.vo", "Spec/Tables.vo", "Spec/ProcTables.vo", "Model/Arb.vo", "Model/ArbTy.vo", "Model/Within.vo", "Spec/PlainDecls.vo"]
         deps = [d for d in deps if os.path.exists(os.path.join(COQ, d[:-1]))]
         rc, out, err, _ = sh(["make", "-j", str(NPROC)] + deps, cwd=COQ, timeout=1800)
         if rc != 0:
